@@ -72,7 +72,15 @@ pub fn render(decls: &[Decl], dflt: u32, entry: &str, tg: (u32, u32, u32), uses:
     }
     let usable = |i: &usize| *i < decls.len() && !matches!(decls[*i].kind.as_str(), "s" | "f");
     s += "void helper() {";
-    for i in helper_uses.iter().filter(|i| usable(i)) { s += " "; s += &use_stmt(*i, &decls[*i]); }
+    // a raw buffer that is read only inside the subscript of a resource array: reached all the same
+    let idx_pair = |list: &[usize]| -> Option<(usize, usize)> {
+        let arr = list.iter().copied().find(|i| usable(i) && decls[*i].kind.starts_with("o:") && decls[*i].arr.map(|n| n > 0).unwrap_or(false) && !in_ns(*i, &decls[*i]))?;
+        let buf = list.iter().copied().find(|i| usable(i) && decls[*i].kind == "o:ByteAddressBuffer" && decls[*i].arr.is_none() && !in_ns(*i, &decls[*i]))?;
+        Some((arr, buf))
+    };
+    let hp = idx_pair(helper_uses);
+    if let Some((a, b)) = hp { s += &format!(" {}[{}.Load(0)];", gname(a, &decls[a]), gname(b, &decls[b])); }
+    for i in helper_uses.iter().filter(|i| usable(i)) { if hp.map(|(a, b)| *i == a || *i == b).unwrap_or(false) { continue; } s += " "; s += &use_stmt(*i, &decls[*i]); }
     s += " }\n";
     if entry == "VSPS" {
         // two stages: the vertex stage mentions U directly, the pixel stage reaches H through the helper
